@@ -148,3 +148,11 @@ impl CaseKind for HistCase {
         }
     }
 }
+
+/// number of cases of a generator-profile campaign (large shapes are expensive in the reference)
+pub fn profile_total(t: Tier, p: refmodel::elab::Profile) -> u64 {
+    match p {
+        refmodel::elab::Profile::LargeDims => t.pick(1600, 40000),
+        refmodel::elab::Profile::WideMagnitudes => t.pick(6000, 120000),
+    }
+}
